@@ -22,7 +22,7 @@ EXPLANATION = (
     'inside the exception wrapper; (g) the sent-futures handed to the application are settled by the close sequence '
     '(both queues drained) and by the sender on every edge out of the write. Not decided: behaviour per byte offset '
     '(all cut points funnel into the three receiver exits) and timing.')
-EXPLANATION_ADDED = ("(h) the reconnect listener's exits fail the registered streams; (i) a cancellation delivered inside the sender or the keepalive loops ends the task; wrap_transport_exception really raises RSocketTransportError; _fail_unsent_frames drains both queues (only while non-empty, until empty) and fails every pending sent-future; close() stops the tasks and then closes an obtained transport; the loop's isinstance dispatch agrees with the handler roles derived from behaviour; (j) close() of a load-balancer strategy closes every member of the pool requests are routed over, with one member's failing close() isolated from the others (gather with return_exceptions, or a contained await per member), and the load-balancer socket's close()/__aexit__ await it unconditionally; a failing transport.close() is contained in _close_transport.")
+EXPLANATION_ADDED = ("(h) the reconnect listener's exits fail the registered streams; (i) a cancellation delivered inside the sender or the keepalive loops ends the task; wrap_transport_exception really raises RSocketTransportError; _fail_unsent_frames drains both queues (only while non-empty, until empty) and fails every pending sent-future; close() stops the tasks and then closes an obtained transport; the loop's isinstance dispatch agrees with the handler roles derived from behaviour; (j) close() of a load-balancer strategy closes every member of the pool requests are routed over, with one member's failing close() isolated from the others (gather with return_exceptions, or a contained await per member), and the load-balancer socket's close()/__aexit__ await it unconditionally; a failing transport.close() is contained in _close_transport; (k) every message (websocket-style) transport puts an exception into its incoming queue on every way its feeder can stop - normal end, error, and cancellation unless the feeder is a task the transport itself owns and cancels from close() - or, for call-back style feeders, from the disconnect call-back, so the receiver runs the close sequence when the peer goes away.")
 EXPLANATION = EXPLANATION.replace(' Not decided', ' ' + EXPLANATION_ADDED + ' Not decided', 1) \
     if ' Not decided' in EXPLANATION else EXPLANATION + ' ' + EXPLANATION_ADDED
 ASSUMPTIONS = COMMON_ASSUMPTIONS + [
@@ -876,6 +876,12 @@ def rule_group_close(ctx, rule='C11.j'):
                 'does not (unconditionally) await strategy.close()')
 
 
+def rule_k(ctx):
+    """The message transports tell the receiver when their connection ends (rules/msgtransports.py)."""
+    from .msgtransports import rule_connection_end_signalled
+    rule_connection_end_signalled(ctx, 'C11.k')
+
+
 def rule_plumbing(ctx):
     from . import plumbing
     plumbing.rule_fail_unsent(ctx, 'C11.g')
@@ -884,4 +890,4 @@ def rule_plumbing(ctx):
 
 
 RULES = [('C11.a', rule_a), ('C11.b', rule_b), ('C11.b', rule_b2), ('C11.c', rule_c), ('C11.d', rule_d), ('C11.e', rule_e),
-         ('C11.f', rule_f), ('C11.g', rule_g), ('C11.h', rule_h), ('C11.i', rule_i), ('C11.f', rule_wrap), ('C11.g+C11.e', rule_plumbing), ('C11.j', rule_group_close)]
+         ('C11.f', rule_f), ('C11.g', rule_g), ('C11.h', rule_h), ('C11.i', rule_i), ('C11.f', rule_wrap), ('C11.g+C11.e', rule_plumbing), ('C11.j', rule_group_close), ('C11.k', rule_k)]
